@@ -1,6 +1,7 @@
 import Np.Proofs.Deriv
 import Np.Model.Grad
 import Np.Proofs.DerivFull
+import Np.Proofs.GradArr
 /-! C06 — derivative, gradient and Hessian are the formal partial derivatives: property theorems -/
 namespace Np.Props.C06
 open MvPolynomial
@@ -59,4 +60,39 @@ theorem pderiv_commute (v w : Name) (p : MvPolynomial Name S) :
 
 /-- non-vacuity: d/dq0 of q0²q1 + 3 has rows (1,1)↦2 and a wrapped row with coefficient 0 -/
 example : derivTerms 0 [([2, 1], (1 : Int)), ([0, 0], 3)] = [([1, 1], 2), ([4294967295, 0], 0)] := by decide
+/-! ### gradient and Hessian of polynomial arrays, element by element (Np/Proofs/GradArr.lean) -/
+section arrays
+variable {R : Type} [CommSemiring R] [BEq R] [LawfulBEq R] {n : Nat}
+
+/-- **gradient**: the result is well-formed, has one block per indeterminate (shape `(D,) + p.shape`), and flat
+position `j * n + i` is `∂/∂x_j` of element `i` — every array size, number of terms, both retain flags (`Bdd`: exponents
+below 2³², which the uint32 storage guarantees) -/
+theorem gradient_is_partials (rc rn : Bool) (p : Poly (Vec R n)) (hw : WF p) (hb : Bdd p) :
+    WF (gradient rc rn p) ∧ (partials rn p).length = p.names.length ∧
+    ∀ (j : Nat) (hj : j < p.names.length) (i : Fin n) (k : Fin ((partials rn p).length * n)),
+      k.val = j * n + i.val → denAt (gradient rc rn p) k = pderiv (p.names[j]) (denAt p i) :=
+  ⟨WF_gradient rc rn p hw hb, partials_length rn p, fun j hj i k hk => gradient_elem rc rn p hw hb j hj i k hk⟩
+
+/-- **Hessian**: well-formed, one row and one column per indeterminate whatever the retain flags (the repair of D24),
+and entry `(a, j)` of element `i` is `∂²/∂x_a ∂x_j` (names in index order, as numpoly keeps them) -/
+theorem hessian_is_second_partials (rc rn : Bool) (p : Poly (Vec R n)) (hw : WF p) (hb : Bdd p)
+    (hs : p.names.Pairwise (· < ·)) :
+    WF (hessianOf rc rn p) ∧ (partials rn (hessAligned rc rn p)).length = p.names.length ∧
+    ∀ (a : Nat) (ha : a < p.names.length) (j : Nat) (hj : j < p.names.length) (i : Fin n)
+      (k' : Fin ((partials rn (hessAligned rc rn p)).length * ((partials rn p).length * n))),
+      k'.val = a * (p.names.length * n) + (j * n + i.val) →
+      denAt (hessianOf rc rn p) k' = pderiv (p.names[a]) (pderiv (p.names[j]) (denAt p i)) :=
+  ⟨WF_hessianOf rc rn p hw hb, hessian_rows rc rn p hs,
+    fun a ha j hj i k' hk' => hessian_elem_sorted rc rn p hw hb hs a ha j hj i k' hk'⟩
+
+/-- the Hessian is symmetric -/
+theorem hessian_symmetric (rc rn : Bool) (p : Poly (Vec R n)) (hw : WF p) (hb : Bdd p)
+    (hs : p.names.Pairwise (· < ·)) (a : Nat) (ha : a < p.names.length) (j : Nat) (hj : j < p.names.length)
+    (i : Fin n) (k1 k2 : Fin ((partials rn (hessAligned rc rn p)).length * ((partials rn p).length * n)))
+    (h1 : k1.val = a * (p.names.length * n) + (j * n + i.val))
+    (h2 : k2.val = j * (p.names.length * n) + (a * n + i.val)) :
+    denAt (hessianOf rc rn p) k1 = denAt (hessianOf rc rn p) k2 :=
+  hessian_symm rc rn p hw hb hs a ha j hj i k1 k2 h1 h2
+end arrays
+
 end Np.Props.C06
